@@ -58,7 +58,21 @@ type pipe struct {
 	s2c       chan *signaling.SessionResponse
 	mtx       sync.Mutex
 	sends     []sigtrace.Sub
+	// late-exit scenarios: once armed, the relay's next write on this stream blocks (the connection
+	// is dead but the relay has not noticed): the handler is parked inside strm.Send (stalled is
+	// closed) until the connection is finally torn down (unstall is closed); the write then fails
+	stallArm    atomic.Bool
+	stalled     chan struct{}
+	unstall     chan struct{}
+	stallOnce   sync.Once
+	unstallOnce sync.Once
 }
+
+// tearDown: the relay finally notices that the (stalled) connection is gone.
+func (p *pipe) tearDown() { p.unstallOnce.Do(func() { close(p.unstall) }) }
+
+// sever: the stream dies silently; the client sees an error, the relay does not notice.
+func (p *pipe) sever() { p.severOnce.Do(func() { close(p.severed) }) }
 
 // clientEnd implements signaling.SRPCSignaling_SessionClient.
 type clientEnd struct{ p *pipe }
@@ -193,6 +207,80 @@ func (w *world) disarm(g *wgate) {
 	g.open()
 }
 
+// armSGate holds the next response of one kind (recv / ack / other) the relay writes to peer src.
+func (w *world) armSGate(src int, kind string) *wgate {
+	g := &wgate{src: src, kind: kind, held: make(chan struct{}), release: make(chan struct{})}
+	w.mtx.Lock()
+	w.sgates = append(w.sgates, g)
+	w.mtx.Unlock()
+	return g
+}
+
+func (w *world) takeSGate(src int, kind string) *wgate {
+	w.mtx.Lock()
+	defer w.mtx.Unlock()
+	for i, g := range w.sgates {
+		if g.src == src && g.kind == kind {
+			w.sgates = append(w.sgates[:i:i], w.sgates[i+1:]...)
+			return g
+		}
+	}
+	return nil
+}
+
+// curPipe is the latest Session RPC of peer src.
+func (w *world) curPipe(src int) *pipe {
+	w.mtx.Lock()
+	defer w.mtx.Unlock()
+	var cur *pipe
+	for _, p := range w.pipes {
+		if p.src == src {
+			cur = p
+		}
+	}
+	return cur
+}
+
+// lastOpened is the epoch of the last Opened the trackers of peer src have processed.
+func (w *world) lastOpened(src int) uint64 {
+	w.mtx.Lock()
+	defer w.mtx.Unlock()
+	var ep uint64
+	for _, l := range w.clog {
+		if strings.HasPrefix(l, "ev=opened ") && w.tkrOf[lineKV(l, "tkr")] == src {
+			ep, _ = strconv.ParseUint(lineKV(l, "a"), 10, 64)
+		}
+	}
+	return ep
+}
+
+// rmark is the current length of the relay's event log.
+func (w *world) rmark() int {
+	w.mtx.Lock()
+	defer w.mtx.Unlock()
+	return len(w.log)
+}
+
+// waitRHook waits for a relay hook line of Session RPC `call` logged at or after `from`.
+func (w *world) waitRHook(from, call int, d time.Duration, ev string) bool {
+	deadline := time.Now().Add(d)
+	for {
+		w.mtx.Lock()
+		for i := from; i < len(w.log); i++ {
+			if strings.HasPrefix(w.log[i], "ev="+ev+" ") && w.calls[lineKV(w.log[i], "call")] == call {
+				w.mtx.Unlock()
+				return true
+			}
+		}
+		from = len(w.log)
+		w.mtx.Unlock()
+		if time.Now().After(deadline) {
+			return false
+		}
+		time.Sleep(50 * time.Microsecond)
+	}
+}
+
 // failPipe breaks the current stream of peer src (both ends notice): its tracker re-connects.
 func (w *world) failPipe(src int) {
 	w.mtx.Lock()
@@ -267,6 +355,26 @@ type serverEnd struct{ p *pipe }
 
 func (s *serverEnd) Context() context.Context { return s.p.sctx }
 func (s *serverEnd) Send(m *signaling.SessionResponse) error {
+	if s.p.stallArm.Load() {
+		// the write blocks on a dead connection and fails when the connection is torn down;
+		// nothing of it is ever transmitted
+		s.p.stallOnce.Do(func() { close(s.p.stalled) })
+		select {
+		case <-s.p.unstall:
+		case <-s.p.sctx.Done():
+		}
+		return io.ErrClosedPipe
+	}
+	// a held response: the relay's handler is parked inside strm.Send (between two critical
+	// sections) until the gate opens; the response is transmitted then
+	if g := s.p.w.takeSGate(s.p.src, respKind(m)); g != nil {
+		close(g.held)
+		select {
+		case <-g.release:
+		case <-s.p.sctx.Done():
+			return context.Canceled
+		}
+	}
 	s.p.w.logTx(s.p.id, m)
 	if s.p.w.severKind(s.p.src) == respKind(m) && s.p.w.takeSever(s.p.src) {
 		// the stream dies silently with this message in flight: the client sees an error, the
@@ -339,7 +447,7 @@ func (r *relayClient) Session(ctx context.Context) (signaling.SRPCSignaling_Sess
 	r.w.mtx.Unlock()
 	pctx, cancel := context.WithCancel(ctx)
 	sctx, scancel := context.WithCancel(context.WithValue(r.w.ctx, ctxKey{}, r.w.e.pids[r.src]))
-	p := &pipe{w: r.w, src: r.src, ctx: pctx, cancel: cancel, sctx: sctx, scancel: scancel, severed: make(chan struct{}), c2s: make(chan *signaling.SessionRequest, 16), s2c: make(chan *signaling.SessionResponse, 16)}
+	p := &pipe{w: r.w, src: r.src, ctx: pctx, cancel: cancel, sctx: sctx, scancel: scancel, severed: make(chan struct{}), stalled: make(chan struct{}), unstall: make(chan struct{}), c2s: make(chan *signaling.SessionRequest, 16), s2c: make(chan *signaling.SessionResponse, 16)}
 	se := &serverEnd{p: p}
 	// the call is registered before its handler can log anything
 	r.w.mtx.Lock()
@@ -419,6 +527,7 @@ type world struct {
 	app        []appEvent
 	active     int // goroutines started on behalf of Session RPCs that have not ended yet
 	gates      []*wgate
+	sgates     []*wgate // held relay responses (late-exit scenarios)
 	reqs       []reqRec
 	severOn    map[int]string // which relayed response kills the stream: "recv" (default) or "ack"
 	failOpen   map[int]int    // peer -> number of Session RPC opens that still fail
@@ -850,6 +959,121 @@ func (e *engine) scenario(kind string, nMsgs int) {
 			sendNow(sides[2], p3, 8*time.Second, true)
 			actions = append(actions, "then A and B send one message each")
 		}
+	} else if kind == "late-exit" {
+		// C23, client stream failure and retry where the relay notices the loss of the old connection
+		// LATE: the relay's handler of peer x is blocked writing on x's dead connection, x's client
+		// sees the stream fail and re-attaches on a new stream (epoch+1), and the superseded handler
+		// ends only when an exchange of the NEW epoch is in flight (point: message stored at the relay
+		// and not yet forwarded; forwarded and not yet acknowledged, in both directions; acknowledgement
+		// stored and not yet delivered). Nobody reconnects afterwards, so every send must complete.
+		total = 0
+		parts := strings.SplitN(e.variant, "|", 2)
+		point := parts[0]
+		xi, _ := strconv.Atoi(parts[1])
+		x, y := sides[xi], sides[3-xi]
+		pay := func(tag byte) []byte { return append([]byte{7, tag}, e.rng.Bytes(5)...) }
+		p0, p1, p2, p3, p4 := pay(0), pay(1), pay(2), pay(3), pay(4)
+		waitClosed := func(ch chan struct{}) bool {
+			select {
+			case <-ch:
+				return true
+			case <-time.After(gateWait):
+				return false
+			}
+		}
+		async := func(s *side, payload []byte) chan error {
+			total++
+			ch := make(chan error, 1)
+			go func() { ch <- sendNow(s, payload, 8*time.Second, true) }()
+			return ch
+		}
+		pauseApp := func(i int) {
+			paused[i].Store(true)
+			for t0 := time.Now(); !parked[i].Load() && time.Since(t0) < 5*time.Second; {
+				time.Sleep(100 * time.Microsecond)
+			}
+		}
+		total += 2
+		if sendNow(y, p0, 8*time.Second, true) == nil && sendNow(x, p1, 8*time.Second, true) == nil {
+			old := w.curPipe(x.ix)
+			ep0 := w.lastOpened(x.ix)
+			from := w.cmark()
+			old.stallArm.Store(true)
+			// y sends to x: the relay starts to forward on the dead connection
+			r1 := async(y, p2)
+			if !waitClosed(old.stalled) {
+				harnessErr = fmt.Sprintf("the relay never wrote to peer %d's stalled stream", x.ix)
+				old.tearDown()
+				<-r1
+			} else {
+				old.sever() // x's client sees the stream fail and retries; the relay still holds the old one
+				newer := func(l string) bool {
+					if !strings.HasPrefix(l, "ev=opened ") {
+						return false
+					}
+					ep, _ := strconv.ParseUint(lineKV(l, "a"), 10, 64)
+					return ep > ep0
+				}
+				if !w.waitCHook(from, x.ix, gateWait, newer) || !w.waitCHook(from, y.ix, gateWait, newer) {
+					harnessErr = "the peers were not told about the re-opened session"
+				}
+				<-r1 // the send that was in flight across the re-open
+				var held *wgate
+				var rs []chan error
+				reached := true
+				switch point {
+				case "unacked":
+					// both directions: forwarded to the partner's client, whose application is not receiving
+					pauseApp(1)
+					pauseApp(2)
+					from = w.cmark()
+					rs = append(rs, async(x, p3), async(y, p4))
+					got := func(l string) bool { return strings.HasPrefix(l, "ev=recvmsg ") }
+					reached = w.waitCHook(from, y.ix, gateWait, got) && w.waitCHook(from, x.ix, gateWait, got)
+				case "stored":
+					// y's handler is parked writing an acknowledgement to y; x's message for y is stored
+					// at the relay and not yet forwarded
+					held = w.armSGate(y.ix, "ack")
+					rs = append(rs, async(y, p3))
+					reached = waitClosed(held.held)
+					rm := w.rmark()
+					rs = append(rs, async(x, p4))
+					reached = reached && w.waitRHook(rm, w.curPipe(x.ix).id, gateWait, "send")
+				case "ack-stored":
+					// x's new handler is parked writing a message to x; y's acknowledgement of x's
+					// message is stored at the relay and not yet delivered
+					held = w.armSGate(x.ix, "recv")
+					rs = append(rs, async(y, p3))
+					reached = waitClosed(held.held)
+					rm := w.rmark()
+					rs = append(rs, async(x, p4))
+					reached = reached && w.waitRHook(rm, w.curPipe(y.ix).id, gateWait, "ack")
+				}
+				if !reached && harnessErr == "" {
+					harnessErr = "the exchange of the new epoch did not reach the point " + point
+				}
+				settling.Store(true)
+				w.quiesce(time.Millisecond)
+				rm := w.rmark()
+				old.tearDown() // only now the relay notices that x's old connection is gone
+				if !w.waitRHook(rm, old.id, gateWait, "end") && harnessErr == "" {
+					harnessErr = "the superseded handler did not end"
+				}
+				w.quiesce(time.Millisecond)
+				settling.Store(false)
+				if held != nil {
+					held.open()
+				}
+				paused[1].Store(false)
+				paused[2].Store(false)
+				for _, r := range rs {
+					<-r
+				}
+				actions = append(actions, fmt.Sprintf("warm-up both ways; the relay blocks writing to peer %d's dead stream; peer %d re-attaches on a new stream (epoch > %d); exchange of the new epoch at point '%s'; the superseded handler ends; everything is released", x.ix, x.ix, ep0, point))
+			}
+		}
+		paused[1].Store(false)
+		paused[2].Store(false)
 	} else if kind == "stale-ack" {
 		// C21 sentinel: B's acknowledgement of m1 is held on the wire while A's caller gives up on m1
 		// (A withdraws it) and A sends m2, which the relay forwards to B's client; B's APPLICATION
@@ -992,12 +1216,20 @@ func (e *engine) scenario(kind string, nMsgs int) {
 		g.open()
 	}
 	w.gates = nil
+	for _, g := range w.sgates {
+		g.open()
+	}
+	w.sgates = nil
+	for _, p := range w.pipes {
+		p.tearDown()
+	}
 	w.mtx.Unlock()
 	settling.Store(true)
 	w.quiesce(2 * time.Millisecond)
 	// ---- monitors (model independent) ----
 	mon := ""
 	key := "sige2e:" + kind
+	supersededExits := 0
 	// C21, happens-before sound. The applications log from their own goroutines, so "B logged the
 	// delivery before A logged the success" is not an order of the protocol. The order that is: the
 	// critical section in which the receiver's Recv took message q (hook recvstep, flag=true,
@@ -1162,6 +1394,36 @@ func (e *engine) scenario(kind string, nMsgs int) {
 		key = "sige2e.progress:" + kind
 	}
 	stuckMtx.Unlock()
+	// C23 (relay side, on the hook lines alone): the exit of a Session handler that is no longer the
+	// attachment of its peer (superseded by a newer stream, or already detached) changes nothing of
+	// the session: neither the epoch nor any pending slot of either attachment. Every relay hook
+	// line is written inside the critical section with the state of its session, so the previous
+	// line of the same session is the state before.
+	{
+		w.mtx.Lock()
+		rlines := append([]string(nil), w.log...)
+		w.mtx.Unlock()
+		last := map[string]string{}
+		for _, l := range rlines {
+			if !strings.HasPrefix(l, "ev=") || lineKV(l, "sess") == "" {
+				continue
+			}
+			sess := lineKV(l, "sess")
+			st := lineKV(l, "sessq") + " " + lineKV(l, "sessA") + " " + lineKV(l, "sessB")
+			if prev, ok := last[sess]; ok && strings.HasPrefix(l, "ev=end ") && mon == "" {
+				att := lineKV(l, "att") + "/"
+				f := strings.Fields(prev)
+				if !strings.HasPrefix(f[1], att) && !strings.HasPrefix(f[2], att) && prev != st {
+					supersededExits++
+					mon = fmt.Sprintf("the exit of a superseded Session handler (call %d) changed the session of the attached peers: epoch/attachments (ptr/recv/recvSent/recvClear/outAcked) before [%s], after [%s]", w.calls[lineKV(l, "call")], prev, st)
+					key = "sige2e.superseded-exit:" + kind
+				} else if !strings.HasPrefix(f[1], att) && !strings.HasPrefix(f[2], att) {
+					supersededExits++
+				}
+			}
+			last[sess] = st
+		}
+	}
 	// relay trace validation
 	w.mtx.Lock()
 	lines := append([]string(nil), w.log...)
@@ -1193,7 +1455,7 @@ func (e *engine) scenario(kind string, nMsgs int) {
 		impl = "trace-accepted-by-real-system"
 	}
 	br := "e2e." + kind
-	if kind == "reopen-during-write" {
+	if kind == "reopen-during-write" || kind == "late-exit" {
 		br += "." + strings.SplitN(e.variant, "|", 2)[0]
 	}
 	e.rep.Case(fmt.Sprintf("sige2e[%s] msgs=%d %s", kind, total, strings.Join(actions, "; ")), mshort, impl, br, true)
@@ -1235,6 +1497,10 @@ func (e *engine) scenario(kind string, nMsgs int) {
 		e.rep.Case("sige2e[usurp] relay replaced a silently dead stream", "ok", "ok", "e2e.usurp.replaced", true)
 	}
 	w.mtx.Unlock()
+	e.rep.Extra["superseded_handler_exits"] = e.rep.Extra["superseded_handler_exits"].(int) + supersededExits
+	if kind == "late-exit" && supersededExits > 0 && harnessErr == "" {
+		e.rep.Case("sige2e[late-exit] a superseded handler ended while an exchange of the new epoch was in flight", "ok", "ok", "e2e.late-exit.superseded-ended", true)
+	}
 	if nCancelled > 0 {
 		e.rep.Case("sige2e a caller gave up on a Send; later sends completed", "ok", "ok", "e2e.send-cancelled", true)
 	}
@@ -1283,13 +1549,28 @@ func (e *engine) run() {
 	e.rep.Rule = "two real signaling clients and the real relay composed through in-memory SRPC stream pairs: both peers send 1–10 messages sequentially (each waits for its ack; every fourth caller gives up after 1-3 ms and the next Send must complete) while both applications receive with Recv callers of every kind (30 ms, already cancelled, past the deadline, a few microseconds, cancelled concurrently; recv-cancelled: one application polls ONLY with contexts that are already done); stable, with B dropping/re-acquiring its session mid-flight, with the stream of either peer dying silently while a relayed message is in flight (it reconnects while the relay still holds the old stream: the usurp path), and with a request (send / ack / clear) of one peer HELD ON THE WIRE inside the pipe while the partner re-attaches or its stream fails and re-connects, released after the holder processed the re-open (reopen-during-write); monitors: a Send sees its ack only after a Recv of the partner took that message (order of the clients' critical sections) AND that Recv call returned it to the application, every message taken by a Recv critical section is returned by the call, all served sends complete; the relay's trace replayed on the Lean LTS; distinct = scenario"
 	e.rep.Require("e2e.stable", "e2e.reattach", "e2e.usurp", "e2e.usurp.replaced", "e2e.send-cancelled", "e2e.recv-cancelled",
 		"e2e.reopen-during-write.send", "e2e.reopen-during-write.ack", "e2e.reopen-during-write.clear")
-	for _, k := range []string{"messages", "redelivered_after_reattach", "relay_events", "usurped_streams", "sends_ok", "sends_cancelled", "client_events", "recv_calls", "recv_calls_returned_error", "session_opens_failed"} {
+	for _, k := range []string{"messages", "redelivered_after_reattach", "relay_events", "usurped_streams", "sends_ok", "sends_cancelled", "client_events", "recv_calls", "recv_calls_returned_error", "session_opens_failed", "superseded_handler_exits"} {
 		e.rep.Extra[k] = 0
 	}
 	e.rep.Require("e2e.stale-ack", "e2e.sender-reopen")
 	e.scenario("stale-ack", 1)
 	for i := 1; i <= 4; i++ {
 		e.scenario("sender-reopen", i)
+	}
+	// wave 5: late exit of a superseded relay handler at every point of the successor's exchange
+	e.rep.Require("e2e.late-exit.unacked", "e2e.late-exit.stored", "e2e.late-exit.ack-stored", "e2e.late-exit.superseded-ended")
+	// (own random stream: the schedules of the other scenarios of a seed stay what they were)
+	lateRng := lib.NewRng(e.a.Seed ^ 0x6c617465)
+	points := []string{"unacked", "stored", "ack-stored"}
+	lateExit := func(pt string) {
+		saved := e.rng
+		e.rng = lateRng
+		e.variant = pt + "|" + strconv.Itoa(1+lateRng.Intn(2))
+		e.scenario("late-exit", 1)
+		e.rng = saved
+	}
+	for _, pt := range points {
+		lateExit(pt)
 	}
 	variants := []string{"send|reattach", "ack|stream-failure", "clear|reattach", "send|stream-failure", "clear|stream-failure"}
 	for _, v := range variants[:3] {
@@ -1307,6 +1588,7 @@ func (e *engine) run() {
 			if i%4 == 0 {
 				e.scenario("recv-cancelled", 3+e.rng.Intn(8))
 			}
+			lateExit(points[lateRng.Intn(len(points))])
 		}
 	}
 }
